@@ -80,10 +80,6 @@ def classify(kind, case, res, diff, rej_diff):
             else:
                 ok = ok and c in std
         return "C24-transformers-stdtype-dropped" if ok else "spec"
-    if kind == "line":
-        if not rej_diff and set(diff) <= {"r0_ohm_per_km", "x0_ohm_per_km", "c0_nf_per_km"} and "r0_ohm_per_km" in std:
-            return "C24-lines-stdtype-zero-seq-dropped"
-        return "spec"
     if kind in ("bus", "gen"):
         if not rej_diff and set(diff) <= {"min_vm_pu", "max_vm_pu"}:
             for c in diff:
@@ -91,15 +87,6 @@ def classify(kind, case, res, diff, rej_diff):
                 if not any(isinstance(v, str) and v.startswith("NANLIKE") for v in vs) and c in args:
                     return "spec"
             return "C24-vm-limit-default-missing-in-batch"
-        return "spec"
-    if kind == "ward":
-        info = res["info"]
-        if sorted(info["idx_before"]) != sorted(info["storage_idx"]) and set(diff) <= {"INDEX"}:
-            return "C24-wards-index-from-storage"
-        return "spec"
-    if kind == "shunt":
-        if "vn_kv" not in args and (set(diff) <= {"vn_kv"}) and (not rej_diff or (res["rej_batch"] and res["rej_batch"][0] == "ValueError")):
-            return "C24-shunts-vn-kv-aligned-by-label"
         return "spec"
     if kind == "sgen":
         gt = args.get("generator_type")
@@ -208,7 +195,7 @@ def compare_model(ctx, kind, case, res, mod):
 def gen_and_run_kinds(ctx):
     rng = ctx.rng
     terms, keep = [], []
-    per = ctx.n(40, 400)
+    per = ctx.n(26, 400)
     for kind in ck.KINDS:
         for _ in range(per):
             case = ck.gen_case(rng, kind)
@@ -227,19 +214,11 @@ def gen_and_run_kinds(ctx):
                      if len(ctx.samples) < 2 else None)
             ctx.count("kind_" + kind)
             ctx.count("rejected_both" if res["rej_single"] and res["rej_batch"] else "accepted" if not res["rej_single"] and not res["rej_batch"] else "rejected_one")
-            if kind == "trafo" and "df" in case["args"] and case["args"]["df"][0] <= 0:
-                rs, rb = res["rej_single"], res["rej_batch"]
-                if rs is not None and rb is None and rs[1] == "ValueError":
-                    ctx.violation("C24-transformers-df-not-checked", "create_transformers accepts df <= 0 which create_transformer rejects", case)
-                    ctx.count("oracle_diff_trafo_df")
-                    if kind in MODELLED:
-                        terms.append(model_term(kind, case, res)); keep.append((kind, case, res, {}, True))
-                    continue
             diff, rej_diff = oracle(ctx, kind, case, res)
             if kind in MODELLED:
                 terms.append(model_term(kind, case, res))
                 keep.append((kind, case, res, diff, rej_diff))
-    model = ctx.coq_eval("c24", "Base.QN C24.Model", terms, shard=60)
+    model = ctx.coq_eval("c24", "Base.QN C24.Model", terms, shard=45)
     for (kind, case, res, diff, rej_diff), mod in zip(keep, model):
         m_inc, m_chk = compare_model(ctx, kind, case, res, mod)
         # the guard computed by the Coq model must explain every observed difference of a modelled kind
@@ -294,22 +273,11 @@ def cost_cases(ctx):
         except UserWarning:
             rb = True
         case = {"kind": "cost", "is_poly": is_poly, "poly": poly, "pwl": pwl, "elements": els, "et": et_arg, "power_type": pt}
-        if et_list:
-            # branch "et is an iterable" (_utils.py:127-137): element ids are stringified by np.c_, so existing costs never match
-            clash = any(e in els and t == et for e, t, _ in poly + pwl)
-            ctx.case(case, nontrivial=bool(poly or pwl))
-            ctx.count("cost_cases_list_et")
-            if rs != rb:
-                k = "C24-costs-batch-check-list-et" if (rs and not rb and clash and len(set(els)) == len(els)) else "spec"
-                ctx.violation(k, "costs (et list): single calls %s, batch call %s" % ("reject" if rs else "accept", "rejects" if rb else "accepts"), case)
-            continue
         g = len(set(els)) == len(els) and not any(e in els and t == et for e, t, _ in poly + pwl)
         ctx.case(case, nontrivial=bool(poly or pwl) or not g)
-        ctx.count("cost_cases")
+        ctx.count("cost_cases_list_et" if et_list else "cost_cases")
         if rs != rb:
-            # known only in the recorded direction (batch accepts what the singles reject) and outside the guard
-            k = "C24-costs-batch-check-bitand" if (rs and not rb and not g) else "spec"
-            ctx.violation(k, "costs: single calls %s, batch call %s" % ("reject" if rs else "accept", "rejects" if rb else "accepts"), case)
+            ctx.violation("spec", "costs: single calls %s, batch call %s" % ("reject" if rs else "accept", "rejects" if rb else "accepts"), case)
             ctx.count("oracle_diff_cost")
         elif not rs and not rb:
             ta, tb = ("poly_cost", "poly_cost") if is_poly else ("pwl_cost", "pwl_cost")
@@ -323,8 +291,10 @@ def cost_cases(ctx):
     model = ctx.coq_eval("c24cost", "Base.QN C24.Model", terms, shard=300)
     for (case, rs, rb, g), m in zip(keep, model):
         ctx.corr_checked += 1
-        if [rs, rb, g] != m:
+        if [rs, rb, g] != m[:3]:
             ctx.disagreement("cost check: impl (fold rejects, batch rejects, guard)=%s model=%s" % ([rs, rb, g], m), case)
+        if m[3] != m[1]:
+            ctx.count("cost_cases_old_check_would_differ")
 
 
 # ------------------------------------------------------------------ switches (oracle only)
@@ -375,10 +345,7 @@ def switch_cases(ctx):
         ctx.case(case, nontrivial=n >= 2)
         ctx.count("switch_cases")
         if (rs is None) != (rb is None):
-            # recorded: the batch connection check tests membership in the buses of *all* listed elements
-            conn = all((ets[i] == "b") or (buses[i] in _conn(net, ets[i], els[i])) for i in range(n))
-            k = "C24-switches-connection-check-pooled" if (rs is not None and rb is None and not conn) else "spec"
-            ctx.violation(k, "switch: single calls %s, batch call %s" % (rs or "accept", rb or "accepts"), case)
+            ctx.violation("spec", "switch: single calls %s, batch call %s" % (rs or "accept", rb or "accepts"), case)
             ctx.count("oracle_diff_switch")
         elif rs is None:
             ca = a.switch[["bus", "element", "et", "closed"]].values.tolist()
@@ -404,10 +371,6 @@ def corpus(ctx):
             res = run_kind_case(ctx, kind, case)
         ctx.case(case, nontrivial=True)
         ctx.count("corpus")
-        if kind == "trafo" and case["args"].get("df", [1])[0] <= 0:
-            if res["rej_single"] is not None and res["rej_batch"] is None and res["rej_single"][1] == "ValueError":
-                ctx.violation("C24-transformers-df-not-checked", "create_transformers accepts df <= 0 which create_transformer rejects", case)
-            continue
         oracle(ctx, kind, case, res)
 
 
